@@ -35,10 +35,14 @@ Spec == Init /\ [][Next]_p
 LenLaw == LenOk(p)
 VersionLaw == p.ver >= MinVersion(p)
 \* the reader automaton's verdict on a whole, well-formed PDU: accepted, consuming exactly its length
+\* (every reader that applies to the PDU: the stream readers for payload and error PDUs, all three fixed-size readers otherwise
+\* and for the fixed-size payload PDUs as well)
 WholeOk == LET bs == Enc(p)
-               e  == IF p.t \in {"ipv4", "ipv6", "router_key", "aspa", "end_of_data"} THEN "payload"
-                     ELSE IF p.t = "error" THEN "skip"
-                     ELSE CASE bs[2] = 0 -> "t0" [] bs[2] = 1 -> "t1" [] bs[2] = 2 -> "t2" [] bs[2] = 3 -> "t3" [] OTHER -> "t8"
-           IN Need(e, bs[2], bs[1], LenField(bs)) = Len(bs) - 8
+               k  == CASE bs[2] = 0 -> "k0" [] bs[2] = 1 -> "k1" [] bs[2] = 2 -> "k2" [] bs[2] = 3 -> "k3" [] bs[2] = 4 -> "k4"
+                       [] bs[2] = 6 -> "k6" [] bs[2] = 7 -> (IF bs[1] = 0 THEN "k70" ELSE "k71") [] bs[2] = 8 -> "k8" [] OTHER -> "none"
+               es == (IF p.t \in {"ipv4", "ipv6", "router_key", "aspa", "end_of_data"} THEN {<<"payload", "">>} ELSE {})
+                     \cup (IF p.t = "error" THEN {<<"skip", "">>} ELSE {})
+                     \cup (IF k # "none" THEN {<<"t", k>>, <<"y", k>>, <<"p", k>>} ELSE {})
+           IN es # {} /\ \A e \in es : Need(e, bs[2], bs[1], LenField(bs)) = Len(bs) - 8
 Emit == PrintT(<<"REPLAY", ToJson([op |-> "pdu", p |-> p, bytes |-> Enc(p)])>>)
 =============================================================================
